@@ -955,7 +955,7 @@ def c04_machine(base, rng, max_iter, slow=False):
 
 def gen_c04_case(seed, flavor, idx, produce=False):
     rng = random.Random((seed << 16) ^ (idx * 2654435761 % (1 << 31)) ^ (3 if flavor == "async" else 5) ^ (64 if produce else 0))
-    prof = rng.choice(["core", "actions", "loops", "done", "core"])
+    prof = rng.choice(["core", "actions", "loops", "done", "core", "faults", "loopfaults"])
     base = gen.gen_case(seed, prof, 60000 + idx)
     n = rng.choice([2, 3, 4, 6]) if not produce else rng.choice([3, 6, 25])
     m = c04_machine(base["machine"], rng, n, slow=produce)
@@ -1239,6 +1239,8 @@ def c04_monitor(case, obs, flavor):
         elif c[0] == "produce":
             ext.update(e for evs in c[1] for _t, e in evs)
     pending = []            # accepted external events not yet received (FIFO), across calls
+    carry = []              # raised events of COMPLETED macrosteps still queued when a call ended in a failure, across calls
+    unknown = False         # a call left events queued and which raised ones are among them is not known: no order / loss rule for raised events until the queue was seen empty
     limit = case["machine"].get("maxIterations", 1000)
 
     def bad(kind, step, detail, **kw):
@@ -1255,6 +1257,8 @@ def c04_monitor(case, obs, flavor):
             accepted = evs if ok else []
         if op in ("restore", "stop"):
             pending = []
+            carry = []
+            unknown = False
         n_recv = sum(1 for r in T if r.startswith("#recv:"))
         if op == "produce":
             senders = [[e for _t, e in evs] for evs in o["call"][1]]
@@ -1295,7 +1299,11 @@ def c04_monitor(case, obs, flavor):
         # ---- scan the records of this call
         seg_ev = None
         skipped = []
-        raised_pending = []
+        raised_pending = list(carry) if op != "produce" else []
+        raised_seg = [-1] * len(raised_pending)      # the macrostep (index of its `#recv:` in this call) that raised each of them
+        n_carried = len(raised_pending)
+        carry = []
+        seg_idx = -1
         open_tx = None          # first record of a transition (exit / transition action) whose `#t:` is still to come
         clean = not o["E"] and not o.get("X")   # no transition failed in this call (a failed one never reports `#t:`)
         for at, r in enumerate(T):
@@ -1311,6 +1319,7 @@ def c04_monitor(case, obs, flavor):
                 open_tx = None
                 e = r[6:]
                 seg_ev = e
+                seg_idx += 1
                 if op != "produce" and e in ext:
                     if e in pending:
                         j = pending.index(e)
@@ -1321,15 +1330,19 @@ def c04_monitor(case, obs, flavor):
                         bad("external-event-reordered", i, f"{e} received at record {at} after an event that was accepted later")
                     else:
                         bad("external-event-duplicated", i, f"received {e} at record {at} but no accepted send of it is outstanding")
-                elif op != "produce" and not cut and e.startswith("r") and e[1:] in EXT:
+                elif op != "produce" and not cut and not unknown and e.startswith("r") and e[1:] in EXT:
                     if raised_pending and raised_pending[0] == e:
                         raised_pending.pop(0)
+                        raised_seg.pop(0)
                     elif e in raised_pending:
                         bad("raised-event-reordered", i, f"received {e} at record {at} before {raised_pending[0]} which was raised earlier")
-                        raised_pending.remove(e)
+                        j = raised_pending.index(e)
+                        raised_pending.pop(j)
+                        raised_seg.pop(j)
                 continue
             if r.startswith("rz:") and o["S"] == "running":
                 raised_pending.append(r[3:].rsplit("@", 1)[0])
+                raised_seg.append(seg_idx)
             tg = _tag(r)
             if tg is not None and seg_ev is not None and not r.startswith("svc:"):
                 if tg not in (seg_ev, "", impl.canon_ev(seg_ev)):
@@ -1345,8 +1358,24 @@ def c04_monitor(case, obs, flavor):
                         f"with {q} event(s) queued; {n_recv} event(s) were received in this call, maxIterations={limit}, bound cuts logged={o['cuts']}",
                         lost=lost, received=n_recv, burst=len(accepted), limit=limit, cut=cut)
                     pending = pending[len(pending) - q:] if q else []
-                if not cut and raised_pending and q == 0 and not o["E"] and not o.get("X"):
-                    bad("raised-event-lost", i, f"raised and never received: {raised_pending[:6]}")
+                if not cut and not unknown and raised_pending and q == 0 and not o["E"] and not o.get("X"):
+                    bad("raised-event-lost", i, f"raised and never received: {raised_pending[:6]}"
+                        + (f" ({n_carried} of the expected ones were left queued by the failure that ended an earlier call)" if n_carried else ""))
+                elif not cut and not unknown and flavor == "sync" and o["E"] and op in ("start", "send", "send_events"):
+                    # the call ended because a macrostep failed and the error escaped: the LAST macrostep is the failed one.
+                    # What COMPLETED macrosteps raised (and what an earlier failed call left queued) was accepted: it is
+                    # still queued, behind nothing but itself and the external events not yet received
+                    done = [n for n, sg in zip(raised_pending, raised_seg) if sg < seg_idx]
+                    left = len(pending)
+                    if q < left + len(done):
+                        bad("raised-event-lost", i, f"the call ended with {o['E']} in the macrostep of {seg_ev!r}; events raised by macrosteps that had "
+                            f"COMPLETED before it and not yet received: {done[:6]}; external events not yet received: {left}; but only {q} event(s) "
+                            f"are still queued: what completed macrosteps raised was dropped with the failed one", failed_call=True)
+                    elif q == left + len(raised_pending):
+                        carry = list(raised_pending)
+                    elif q == left + len(done):
+                        carry = done
+                unknown = q > 0 and len(carry) + len(pending) != q
             elif o["S"] in TERMINAL:
                 pending = []
         # ---- the bound may cut a CHAIN, not a busy period: a cut that discards raised events is legitimate only if the
